@@ -320,6 +320,10 @@ def impl1(case):
             return Err(105, "AssertionError")
         except Exception as e:  # noqa
             return exc_code(e)
+    if op == 62:
+        import pC09
+
+        return pC09.impl(case[1:])
     if op == 60:
         return nl.run_impl(case[1:])
     if op == 61:
@@ -540,7 +544,49 @@ TTL_ATOMS = ["0", "1", "9", "30", "300", "4294967295", "4294967296", "w", "d", "
 GR_ATOMS = ["0", "1", "2", "9", "10", "255", "-", "/", "-", "/", "a", " ", "٣", "１", "²", "+", "00"]
 
 
+class _SubCtx:
+    """a private context for a borrowed case generator (own PRNG stream, same tier)"""
+
+    def __init__(self, ctx, salt):
+        import random as _r
+
+        self.tier = ctx.tier
+        self.seed = ctx.seed
+        self.rng = _r.Random(ctx.seed * 7919 + salt)
+        self.notes = {}
+        self.dist = {}
+
+    @property
+    def quick(self):
+        return self.tier == "quick"
+
+    def n(self, q, t):
+        return q if self.tier == "quick" else t
+
+    def count(self, key, k=1):
+        pass
+
+
+def zone_model_cases(ctx):
+    """whole zone files / read_rrsets texts through dns.zone.from_text and through C09's model
+    (Model/ZoneTextM.v), on which no_internal_zonefile / no_internal_read_rrsets are stated; the
+    generator, the implementation runner and the modelled-fragment filter are C09's"""
+    import pC09
+
+    limit = ctx.n(250, 1500)
+    n = 0
+    for kind, case in pC09.cases(_SubCtx(ctx, 909)):
+        if case[0] in (1, 6):
+            case = normalize(case)
+            if pC09.in_model(kind, case):
+                yield "zone_model", [62] + case
+                n += 1
+                if n >= limit:
+                    return
+
+
 def cases(ctx):
+    yield from zone_model_cases(ctx)
     rng = ctx.rng
     s = P.load_seeds()
     wires = [w for w in s.msg_wires] + [r[3] for r in s.rdatas if len(r[3]) > 3]
@@ -666,6 +712,10 @@ def oracle(ctx, kind, case, out):
     elif op in (31, 32, 50, 60):
         if foreign(out):
             fail("non-library exception: " + out.text)
+    elif op == 62:
+        # C09's codes: 107 = the documented zone-semantic ValueError
+        if isinstance(out, Err) and (out.code >= 100 or out.code < 0) and out.code not in (107, 998):
+            fail("zone text raised a non-library exception: " + out.text)
     elif op == 61:
         outs = out if isinstance(out, list) and case[1] == 2 else [out]
         for o in outs:
